@@ -82,6 +82,12 @@ def comp_body(C, b, ind, ctx, nctx):
     elif t == 'fcall':
         _, p, a, l = b
         C.emit(ind, 'FILT(%d, %d)(ARG(%d, %d))' % (p, l, a, l), l)
+    elif t == 'withctx':
+        # entering the SAME context object again
+        C.emit(ind, 'with %s:' % ctx, b[1])
+        comp_body(C, b[2], ind + 1, ctx, nctx)
+    elif t == 'tamper':
+        C.emit(ind, 'TAMPER()')
     else:
         raise ValueError('bad body %r' % (b,))
 
@@ -97,7 +103,19 @@ def compile_case(c):
         C.emit(ind, 'raise_orig(%d, %d)' % (oc, ok), 1)
     if op == 'sare':
         mode = c['mode']
-        if mode == 'noactive':
+        if mode == 'reuse':
+            # one context object shared by several handlers: c['pre'] uses it first (with blocks / capture() under
+            # other exceptions), then it is entered under the original exception
+            C.emit(1, 'ctx = SARE(reraise=%s, logger=LG(2))' % bool(c['r0']))
+            comp_body(C, c['pre'], 1, 'ctx', 0)
+            C.emit(1, 'try:'); orig(2)
+            C.emit(1, 'except BaseException:')
+            C.emit(2, 'with ctx:', 2)
+            C.emit(3, 'TOP(ctx)')
+            C.emit(3, 'try:')
+            comp_body(C, c['body'], 4, 'ctx', 0); C.emit(4, 'DONE()')
+            C.emit(3, 'except BaseException as _e:'); C.emit(4, 'BODYEXC(_e)'); C.emit(4, 'raise')
+        elif mode == 'noactive':
             C.emit(1, 'with SARE(reraise=%s, logger=LG(2)) as ctx:' % bool(c['r0']), 2)
             C.emit(2, 'TOP(ctx)')
             C.emit(2, 'try:')
@@ -135,7 +153,7 @@ def compile_case(c):
             else: raise ValueError(mode)
     elif op == 'filter':
         # use of the filter: 0 plain instance, 1 decorator-made, 2 bound method
-        C.emit(1, 'with FILTU(%d, 2, %d):' % (c['p'], c['use']), 2)
+        C.emit(1, 'with FILTU(%d, 2, %d, %d):' % (c['p'], c['use'], c.get('p2', 0)), 2)
         C.emit(2, 'ctx = None')
         C.emit(2, 'try:')
         comp_body(C, c['body'], 3, 'ctx', 0); C.emit(3, 'DONE()')
@@ -144,9 +162,9 @@ def compile_case(c):
         if c['active']:
             C.emit(1, 'try:'); orig(2)
             C.emit(1, 'except BaseException:')
-            C.emit(2, 'FILTU(%d, 2, %d)(ARG(%d, 2))' % (c['p'], c['use'], c['a']), 2)
+            C.emit(2, 'FILTU(%d, 2, %d, %d)(ARG(%d, 2))' % (c['p'], c['use'], c.get('p2', 0), c['a']), 2)
         else:
-            C.emit(1, 'FILTU(%d, 2, %d)(ARG(%d, 2))' % (c['p'], c['use'], c['a']), 2)
+            C.emit(1, 'FILTU(%d, 2, %d, %d)(ARG(%d, 2))' % (c['p'], c['use'], c.get('p2', 0), c['a']), 2)
     elif op == 'rpoe':
         C.emit(1, 'with RPOE(%d):' % c['rm'], 2)
         C.emit(2, 'ctx = None')
@@ -186,7 +204,7 @@ class Run:
         self.completed = False; self.body_exc = None; self.top = None
         self.removed = []; self.fname = '<C09prog>'
         self.cause_info = None; self.orig = None; self.path = None; self.path_exists = None
-        self.with_exc = None; self.with_finished = False; self.with_tb_ok = None; self.with_logs = 0
+        self.logs_at_top = 0; self.with_exc = None; self.with_finished = False; self.with_tb_ok = None; self.with_logs = 0
         self.entry_exc = None; self.entry_tb = None; self.args_seen = []; self.given = None
 
     # helpers visible to the program
@@ -211,17 +229,33 @@ class Run:
             if v == 2: raise run.mk(0, 1000 + l)
             return (TRUTHY if v else FALSY)[(l + p) % 6]
         return pred
-    def filt(self, p, l, use=0):
+    def tamper(self):
+        e = sys.exc_info()[1]
+        if e is not None: e.__traceback__ = None
+    def filt(self, p, l, use=0, p2=0):
         pred = self.predicate(p, l)
         if use == 0: return self.ex.exception_filter(pred)
         if use == 1:
             @self.ex.exception_filter
             def decorated(ex): return pred(ex)
             return decorated
+        run = self
         class Holder:
+            # the predicate depends on the INSTANCE's state
+            def __init__(self_, p): self_.p = p
             @self.ex.exception_filter
-            def meth(self_, ex): return pred(ex)
-        return Holder().meth
+            def meth(self_, ex): return run.predicate(self_.p, l)(ex)
+        if use == 3:
+            # another instance of the same class, with different state, is bound and used first
+            first = Holder(p2)
+            with first.meth:
+                pass
+            second = Holder(p)
+            f = second.meth
+            with first.meth:
+                pass
+            return f
+        return Holder(p).meth
     def arg(self, a, l):
         r = self._arg(a, l)
         cur = sys.exc_info()[1]
@@ -258,6 +292,7 @@ class Run:
 
     def set_top(self, ctx):
         self.top = ctx
+        self.logs_at_top = len(self.logs)
         cur = sys.exc_info()[1]
         self.entry_exc = cur
         self.entry_tb = self.raw_frames(cur.__traceback__) if cur is not None else None
@@ -268,7 +303,7 @@ class Run:
         fin = self.raw_frames(w.__traceback__) if w is not None else None
         e = self.entry_tb
         self.with_tb_ok = (e is not None and fin is not None and len(e) <= len(fin) and fin[len(fin) - len(e):] == e)
-        self.with_logs = sum(1 for l, a in self.logs if l == 2)
+        self.with_logs = sum(1 for l, a in self.logs[self.logs_at_top:] if l == 2)
     def raw_frames(self, tb):
         out = []
         while tb is not None:
@@ -324,7 +359,7 @@ class Run:
         run = self
         g = {'mk': self.mk, 'pre': self.pre, 'raise_orig': self.raise_orig,
              'SARE': self.ex.save_and_reraise_exception, 'LG': lambda l: FakeLogger(l, self.logs),
-             'FILT': lambda p, l: self.filt(p, l), 'FILTU': lambda p, l, u: self.filt(p, l, u),
+             'FILT': lambda p, l: self.filt(p, l), 'FILTU': lambda p, l, u, p2=0: self.filt(p, l, u, p2), 'TAMPER': self.tamper,
              'ARG': self.arg, 'RPOE': self.rpoe, 'RWC': self.rwc,
              'TOP': self.set_top,
              'DONE': lambda: setattr(run, 'completed', True),
@@ -422,8 +457,8 @@ def facts(run):
          'body_raised': run.body_exc is not None,
          'flag': None if run.top is None else bool(run.top.reraise),
          'entry_tb_kept': suffix(run.entry_tb, fin),
-         'logs2': sum(1 for l, a in run.logs if l == 2), 'logs9': sum(1 for l, a in run.logs if l == 9),
-         'log2_names_entry': [names(run.entry_exc, a) for l, a in run.logs if l == 2],
+         'logs2': sum(1 for l, a in run.logs[run.logs_at_top:] if l == 2), 'logs9': sum(1 for l, a in run.logs if l == 9),
+         'log2_names_entry': [names(run.entry_exc, a) for l, a in run.logs[run.logs_at_top:] if l == 2],
          'log9_names_body_exc': [names(run.body_exc, a) for l, a in run.logs if l == 9],
          'out_label': run.reg.get(id(out)) if out is not None else None,
          'out_class': type(out).__name__ if out is not None else None,
